@@ -50,6 +50,9 @@ def installation(gen, rnd):
         C.renumber_acs(inst, sorted(rnd.sample(range(4 if gen == 4 else 8), n_acs)))
     for a in inst["acs"]:
         ab = a["ability"]
+        if rnd.random() < 0.3:
+            # leftovers behind the terminator of the name field (not even valid UTF-8)
+            ab["name_tail"] = rnd.choice([b"\xff", b"old name", b"\xc3"])
         if gen == 4 and ab.get("groups") is not None and rnd.random() < 0.5:
             # a console that sends the group bitmap: its legacy start/count bytes are leftovers
             # (the library documents them as unreliable) - also for an AC that owns no group
@@ -71,6 +74,8 @@ def installation(gen, rnd):
     for z in inst["zones"]:
         if rnd.random() < 0.6:
             z["status"] = rand_zone(gen, rnd, z["id"])
+        if gen == 4 and rnd.random() < 0.3:
+            z["name_tail"] = rnd.choice([b"\xff", b"old", b"\xe2\x82"])
     return inst
 
 
@@ -162,6 +167,8 @@ def cases(tier, seed):
         yield {"k": "reinit", "gen": (4, 5)[i % 2], "seed": rnd.randrange(1 << 30),
                "kinds": rnd.choice([["zone"], ["ac"], ["timer"], ["zone", "ac", "timer"],
                                     ["error", "version", "zone"]])}
+    for i in range(4 if tier == "quick" else 200):
+        yield {"k": "grow", "gen": (4, 5)[i % 2], "seed": rnd.randrange(1 << 30)}
     for i in range(6 if tier == "quick" else 600):
         yield {"k": "dropref", "gen": (4, 5)[i % 2], "seed": rnd.randrange(1 << 30),
                "n": rnd.randint(3, 12)}
@@ -471,6 +478,74 @@ def run_reinit(case):
             "sample": {"gen": gen, "kinds": case["kinds"]}}
 
 
+def run_grow(case):
+    """One object, two lives: in the first the console mentions an air-conditioner number the
+    installation does not have (a timer slot, a status record); before the second life that
+    unit has been installed. It is then an air-conditioner like any other."""
+    gen = case["gen"]
+    rnd = random.Random(case["seed"])
+    viol, obs = [], {}
+
+    async def main(loop, net, log):
+        inst1 = C.default_installation(gen, 1, (2,))
+        inst2 = C.default_installation(gen, 2, (2, 1))
+        new_ac = inst2["acs"][1]["status"]["ac"]
+        w = AW.ModelWorld(gen, loop, net, log, inst1)
+        if await w.init_and_sync() is not True:
+            viol.append({"mechanism": "init-failed-on-plain-console", "detail": {}})
+            return
+
+        def compare(where):
+            w.feed()
+            dd = RM.diff(w.model.expected(), H.snapshot(w.at))
+            for path, ev, gv in dd[:3]:
+                viol.append({"mechanism": "getter-differs-from-latest-report-after-reinit:"
+                             + path.split(".")[-1],
+                             "detail": {"where": where, "path": path, "expected": ev, "got": gv,
+                                        "grown": True}})
+            return not dd
+
+        # first life: frames that also mention the unit that is not there yet
+        con2 = C.SimConsole(net, inst2, C.Knobs(), host="unused")
+        for tm in (True, False, True):
+            inst2["timers"][new_ac] = {"on": C.timer(not tm, rnd.randint(0, 23), rnd.randint(0, 59)),
+                                       "off": C.timer(tm, rnd.randint(0, 23), rnd.randint(0, 59))}
+            await w.inject(con2.frame_timer_status())
+            await w.inject(con2.frame_ac_status())
+        if not compare("first life"):
+            return
+        await w.at.shutdown()
+        await quiesce(loop)
+        # the unit has been installed meanwhile
+        inst2["timers"][new_ac] = {"on": C.timer(False, 7, 15), "off": C.timer(False, 22, 45)}
+        w.inst = inst2
+        w.console = C.SimConsole(net, inst2, C.Knobs())
+        w.model = RM.RefModel(gen)
+        w._bufs.clear()
+        w.feed()
+        w.model = RM.RefModel(gen)
+        if await w.init_and_sync() is not True:
+            viol.append({"mechanism": "reinit-failed-on-plain-console", "detail": {}})
+            return
+        if not compare("after the second init"):
+            return
+        for k in range(3):
+            inst2["timers"][new_ac] = {"on": C.timer(k == 1, 5 + k, 50), "off": C.timer(False, 21, 30 + k)}
+            await w.inject(w.console.frame_timer_status())
+            obs["frames_for_a_unit_installed_between_two_lives"] = obs.get(
+                "frames_for_a_unit_installed_between_two_lives", 0) + 1
+            if not compare("timer status for the new unit"):
+                break
+        await w.at.shutdown()
+
+    _, log, st = H.run(main)
+    if st != "ok":
+        viol.append({"mechanism": "model-world-hang", "detail": {"status": st}})
+    n = obs.get("frames_for_a_unit_installed_between_two_lives", 0)
+    return {"violations": H.cap(viol), "evals": n, "decided": n, "distinct": n, "obs": obs,
+            "sample": {"gen": gen, "grow": True}}
+
+
 def run_dropref(case):
     """The application keeps the air-conditioner and zone objects it was given, but not the
     AirTouch object itself (no shutdown): what it still holds keeps following the console."""
@@ -529,6 +604,8 @@ def run_dropref(case):
 def run_case(case):
     if case.get("k") == "dropref":
         return run_dropref(case)
+    if case.get("k") == "grow":
+        return run_grow(case)
     if case.get("k") == "slow":
         return run_slow(case)
     if case.get("k") == "reinit":
